@@ -12,11 +12,14 @@ from __future__ import annotations
 import numpy as np
 
 from pv import core
+from pv.gen import c09_axes as AX
 from pv.ref import c09_oracle as O
 
 
-def _image(rng, fwhm, thr):
-    ny, nx = int(rng.integers(24, 56)), int(rng.integers(24, 56))
+def _image(case, fwhm, thr):
+    rng = case.rng
+    ny, nx = AX.image_shape(case, 24, 56, 'shape_finder')
+    ny, nx = max(ny, 12), max(nx, 12)
     yy, xx = np.mgrid[0:ny, 0:nx]
     data = rng.normal(0, 1.0, (ny, nx))
     sig = fwhm / 2.3548
@@ -30,14 +33,27 @@ def _image(rng, fwhm, thr):
         x, y = rng.uniform(2, nx - 2), rng.uniform(2, ny - 2)
         data += rng.uniform(0.5, 2.5) * thr * np.exp(-(((xx - x) / sig) ** 2 + ((yy - y) / sig) ** 2) / 2)
     mask = (rng.random((ny, nx)) < 0.03) if rng.random() < 0.3 else None
+    r = rng.random()
+    if r < 0.05:
+        data = np.full((ny, nx), 3.0)                     # degenerate: constant image, nothing to detect
+        case.note('axis:degenerate_finder:constant_image')
+    elif r < 0.1:
+        data = rng.normal(0, 0.01, (ny, nx))              # degenerate: nothing above the threshold
+        case.note('axis:degenerate_finder:nothing_detected')
+    elif r < 0.14:
+        mask = np.ones((ny, nx), bool)                    # degenerate: everything masked
+        case.note('axis:degenerate_finder:all_masked')
     return data, mask
 
 
-def gen_factory(rng, kind):
+def gen_factory(case, kind):
     import astropy.units as u
+    rng = case.rng
+    mag = AX.scale(case, 'magnitude_finder')
+    tform = AX.scalar_form(case, 'finder_scalar_form')
     fwhm = float(np.round(rng.uniform(1.8, 4.0), 2))
     thr = float(np.round(rng.uniform(4, 20), 2))
-    unit = u.Jy if rng.random() < 0.2 else None
+    unit = [u.Jy, u.mJy][int(rng.integers(0, 2))] if rng.random() < 0.2 else None
     brightest = None if rng.random() < 0.6 else int(rng.integers(1, 5))
     peakmax = None if rng.random() < 0.7 else float(rng.uniform(100, 300))
     excl = bool(rng.random() < 0.3)
@@ -56,8 +72,8 @@ def gen_factory(rng, kind):
 
     def make():
         from photutils.detection import DAOStarFinder, IRAFStarFinder, StarFinder
-        t = thr * unit if unit is not None else thr
-        pm = None if peakmax is None else (peakmax * unit if unit is not None else peakmax)
+        t = thr * mag * unit if unit is not None else (tform(thr * mag) if tform.kind != 'zero_d' else thr * mag)
+        pm = None if peakmax is None else (peakmax * mag * unit if unit is not None else peakmax * mag)
         if kind == 'DAOStarFinder':
             return DAOStarFinder(t, fwhm, ratio=ratio, theta=theta, exclude_border=excl, brightest=brightest,
                                  peakmax=pm, xycoords=None if xyc is None else xyc.copy(), min_separation=minsep)
@@ -72,7 +88,8 @@ def gen_factory(rng, kind):
                 exclude_border=excl, min_separation=minsep, xycoords=xyc is not None, ratio=ratio, theta=theta)
     if kind == 'StarFinder':
         desc.update(kernel_size=ksz, kernel_max=kscale)
-    return make, desc, fwhm, unit, kscale, thr
+    desc['magnitude'] = mag
+    return make, desc, fwhm, unit, kscale, thr, mag
 
 
 def _config(f, kind):
@@ -89,9 +106,11 @@ def _config(f, kind):
 
 def run(case, kind):
     rng = case.rng
-    make, desc, fwhm, unit, kscale, thr = gen_factory(rng, kind)
+    make, desc, fwhm, unit, kscale, thr, mag = gen_factory(case, kind)
+    lay = AX.layout(case, 'layout_finder')
     ncalls = int(rng.integers(2, 6))
-    imgs = [_image(rng, fwhm, thr) for _ in range(int(rng.integers(2, 4)))]
+    imgs = [_image(case, fwhm, thr) for _ in range(int(rng.integers(2, 4)))]
+    imgs = [(d * mag, m) for d, m in imgs]
     seq = [int(rng.integers(0, len(imgs))) for _ in range(ncalls)]
     via = [str(rng.choice(['call', 'find_stars'])) for _ in range(ncalls)]
     case.params = dict(desc, shapes=[list(i[0].shape) for i in imgs], seq=seq, via=via)
@@ -105,10 +124,10 @@ def run(case, kind):
         data, mask = imgs[si]
 
         def do(f):
-            d = data.copy()
+            d = lay(data)
             if unit is not None:
                 d = d * unit
-            m = None if mask is None else mask.copy()
+            m = lay(mask)
             return f(d, mask=m) if how == 'call' else f.find_stars(d, mask=m)
 
         mech = {'family': 'finder', 'cls': kind, 'call': 'first' if k == 0 else 'later', 'via': how}
